@@ -313,6 +313,39 @@ def container_case(case):
     return {"v": v[:6], "nt": [case], "stats": {"evals": 3}, "sample": {"family": family, "affinity": tag, "container": form}}
 
 
+def shared_params_case(case):
+    """One user dictionary of kernel parameters serves several objectives.  An objective whose kernel does not understand some of the keys is
+    used first (it may refuse, or warn and go on - under any warning filter); the next objective, built with the same dictionary object, still
+    scores with every parameter the user wrote."""
+    first, second, mode, ovo, seed = case
+    import gemclus.gemini as G
+    from mc import failures
+    from sklearn.metrics import pairwise_kernels
+    pristine = {"gamma": 0.5, "degree": 2, "coef0": 0.25} if second == "poly" else {"gamma": 0.5, "coef0": 0.25}     # all keys valid for `second`
+    d_user = dict(pristine)
+    rs = np.random.RandomState(seed + 77)
+    X = rs.normal(size=(7, 2))
+    P = rs.dirichlet(np.ones(3), size=7)
+    g1 = G.MMDGEMINI(ovo=ovo, kernel=first, kernel_params=d_user)
+    failures.attempt(lambda: g1(P.copy(), g1.compute_affinity(X)), mode)
+    g2 = G.MMDGEMINI(ovo=ovo, kernel=second, kernel_params=d_user)
+    where = dict(target=f"class:MMDGEMINI(ovo={ovo})", dist="mmd", mode="ovo" if ovo else "ova", K=3, n=7, via=f"shared_kernel_params_after_{first}")
+    v = []
+    try:
+        got = float(g2(P.copy(), g2.compute_affinity(X)))
+        A_ref = pairwise_kernels(X, metric=second, **pristine)
+        expected, slack = ref.ref_score_slack(P, A_ref, "mmd", "ovo" if ovo else "ova")
+        if abs(got - expected) > ref.tol("mmd", expected, slack, float(np.sqrt(np.abs(A_ref).max()))):
+            v.append(violation("score_mismatch", {"target": where["target"], "kernel": second, "kernel_params_as_written": pristine, "dictionary_now": d_user,
+                                                  "got": got, "expected": expected, "history": f"an objective with kernel {first!r} used the same dictionary first (warnings: {mode})"}, **where))
+    except Exception as e:  # noqa
+        v.append(violation("score_mismatch", {"target": where["target"], "kernel": second, "error": repr(e)[:200], "dictionary_now": d_user}, **where))
+    if d_user != pristine:
+        v.append(violation("score_depends_on_what_the_object_saw_before", {"target": where["target"], "history": "the user's kernel_params dictionary was rewritten",
+                                                                         "as_written": pristine, "now": d_user}, **where))
+    return {"v": v[:2], "nt": [case], "stats": {"evals": 1}, "sample": {"first_kernel": first, "second_kernel": second, "warnings": mode}}
+
+
 def explorers(tier, seed):
     thorough = tier == "thorough"
     gseed = 1000 + seed
@@ -361,7 +394,12 @@ def explorers(tier, seed):
     forms = ["uint8", "int8", "int16", "int32", "int64", "float32", "list", "fortran", "readonly", "strided"]
     c_cont = [("mmd", t_, f_, n_, seed) for t_ in ("linear", "rbf_g", "poly_p", "cosine", "sigmoid_nog") for f_ in forms for n_ in (4, 9)] + \
              [("wasserstein", t_, f_, n_, seed) for t_ in ("euclidean", "l1", "cosine") for f_ in forms for n_ in (4, 9)]
+    c_sh = [(f_, s_, m_, o_, seed) for f_ in ("rbf", "laplacian", "linear", "cosine", "sigmoid", "poly") for s_ in ("poly", "sigmoid")
+            for m_ in ("ignore", "error", "always") for o_ in (False, True) if f_ != s_]
     return [
+        Explorer("shared_parameter_dictionaries", "props.c01", "shared_params_case", c_sh, chunk=8, floor=20,
+                 rule="one user kernel_params dictionary ({gamma, degree, coef0} / {gamma, coef0}) shared by two MMD objectives: the first one's kernel ignores / rejects some keys "
+                      "(call attempted with warnings shown, silenced and as errors), the second one must score with all parameters as written; dictionary unchanged"),
         Explorer("data_containers", "props.c01", "container_case", c_cont, chunk=8, floor=50,
                  rule="named kernels and metrics on count data handed over as uint8, int8, int16, int32, int64, float32, nested lists, Fortran order, read-only "
                       "and strided views: compute_affinity and the score (call and model.score) are those of the float64 copy (integer products must not wrap around)"),
